@@ -40,6 +40,28 @@ func totalAlloc() uint64 {
 	return ms.TotalAlloc
 }
 
+// remeasure: TotalAlloc is process-wide, so a figure can include what the runtime itself allocated
+// meanwhile (rare, and only ever too much).  A figure that is not clearly small is measured again a
+// few times on the same input and the minimum is taken: noise adds, it never subtracts.
+func remeasure(used uint64, n int, again func()) uint64 {
+	if used <= 1024+16*uint64(n) {
+		return used
+	}
+	for i := 0; i < 5; i++ {
+		var u uint64
+		func() {
+			defer func() { recover() }()
+			before := totalAlloc()
+			again()
+			u = totalAlloc() - before
+		}()
+		if u < used {
+			used = u
+		}
+	}
+	return used
+}
+
 // allocation the property tolerates for an input of n bytes: a small constant plus a linear function
 func allowed(n int) uint64 { return 8192 + 64*uint64(n) }
 
@@ -59,6 +81,9 @@ func decodeFcall(r *rep.Report, codec p9p.Codec, bs []byte, label string) {
 		used = totalAlloc() - before
 		return false
 	}()
+	if !panicked {
+		used = remeasure(used, len(bs), func() { var f2 p9p.Fcall; codec.Unmarshal(bs, &f2) })
+	}
 	nt := len(bs) > 3
 	switch {
 	case panicked:
@@ -135,6 +160,9 @@ func decodeDir(r *rep.Report, codec p9p.Codec, bs []byte, label string) {
 		used = totalAlloc() - before
 		return false
 	}()
+	if !panicked {
+		used = remeasure(used, len(bs), func() { var d2 p9p.Dir; p9p.DecodeDir(codec, bytes.NewReader(bs), &d2) })
+	}
 	nt := len(bs) > 1
 	switch {
 	case panicked:
